@@ -108,8 +108,25 @@ func Observe(n string, v uint64)   { res.Observed[n] = v }
 func SetUnwind(k int, violation bool) {}
 func HavocLoop(fn string, v string) {}
 func HavocUsed(fn string) bool      { return false }
+func StubCRC(on bool) {}
+
+// UF32 natively: the only uninterpreted function in use is "crc", whose native meaning is CRC-32/MPEG-2.
 func UF32(n string, data []byte) uint32 {
-	panic(abortT{"UF32 has no native meaning"})
+	if n != "crc" {
+		panic(abortT{"UF32 has no native meaning for " + n})
+	}
+	crc := uint32(0xFFFFFFFF)
+	for _, b := range data {
+		crc ^= uint32(b) << 24
+		for i := 0; i < 8; i++ {
+			if crc&0x80000000 != 0 {
+				crc = crc<<1 ^ 0x04C11DB7
+			} else {
+				crc <<= 1
+			}
+		}
+	}
+	return crc
 }
 
 func runOne(v *Vector, f func()) (r Result) {
